@@ -599,11 +599,13 @@ class Loops:
             it.ghost[g] = it.fresh('hv_' + g, vals.SeqVal)
 
     def check_inv(self, it, spec, when, extra_env, label):
+        extra_env = dict(it.env, **extra_env)
         for nme, text in spec['invariant'].items():
             v = self.world.eval_spec(it, text, extra_env)
             it.oblige(f'{label}/inv.{nme}/{when}', vals.truthy(v.t), kind='loop-invariant')
 
     def assume_inv(self, it, spec, extra_env):
+        extra_env = dict(it.env, **extra_env)
         for nme, text in spec['invariant'].items():
             v = self.world.eval_spec(it, text, extra_env)
             it.assume(vals.truthy(v.t))
